@@ -193,31 +193,25 @@ def report_rules(ctx, w, S):
     # the Vt entry points
     for api in (WD.VT_FEED_STR, WD.VT_RESIZE):
         vb = w.body(api)
-        sites = [cs for cs in E.call_sites(api) if cs.callee == ch]
-        ok = len(sites) == 1 and vb.every_path_to_return_hits((0, 0), {sites[0].point}, include_start=True)
-        ctx.check(ok, "M4", api + ":calls", "%s does not call the reporting routine %s on every path" % (api, ch), loc=w.fn_loc(api))
-        if sites:
-            T = w.terms(api)
-            # Changes { lines: <that call> }
-            agg = [(pt, t) for (fn, pt, p, t) in []]
-            found = False
-            for bl in vb.normal_blocks():
-                for i, s in enumerate(vb.blocks[bl]["stmts"]):
-                    if s["k"] == "assign" and s["rv"]["k"] == "aggregate" and s["rv"].get("adt") == "vt::Changes":
-                        names = s["rv"]["field_names"]
-                        t = T.operand(s["rv"]["ops"][names.index("lines")], (bl, i))
-                        found = True
-                        ctx.check(t[0] == "call" and t[1] == ch, "M4", api + ":lines",
-                                  "Changes.lines returned by %s is %s, not the reporting routine's result" % (api, w.tstr(api, t)), loc=w.stmt_loc(api, (bl, i)),
-                                  sample={"api": api, "lines": w.tstr(api, t)})
-            if not found:
-                ctx.violation("M4", api + ":lines", "%s does not build a vt::Changes value" % api, loc=w.fn_loc(api))
-            # per-character steps precede the report
+        ep = shared.Epilogue(w, S, api)
+        ctx.check(ep.on_every_path(ch) and ep.returned_unchanged(), "M4", api + ":calls", "%s does not run the reporting routine %s on every path (or does not return the epilogue's value)" % (api, ch), loc=w.fn_loc(api))
+        agg = ep.changes_aggregate()
+        if agg is None:
+            ctx.violation("M4", api + ":lines", "%s does not build a vt::Changes value" % api, loc=w.fn_loc(api))
+        else:
+            hfn, hpt, flds = agg
+            t = flds.get("lines")
+            ctx.check(t is not None and t[0] == "call" and t[1] == ch, "M4", api + ":lines",
+                      "Changes.lines returned by %s is %s, not the reporting routine's result" % (api, w.tstr(hfn, t) if t else None), loc=w.stmt_loc(hfn, hpt),
+                      sample={"api": api, "lines": w.tstr(hfn, t) if t else None})
+        rs = ep.site_in_api(ch)
+        if rs is not None:
+            # per-character steps / the resize precede the report
             for cs in E.call_sites(api):
-                if cs.local and cs.callee != ch and any(p[:2] == ("arg1", "terminal") for p in cs.W) and cs.callee != S.gc_fn:
-                    ctx.check(vb.point_dominates(cs.point, sites[0].point), "M4", api + ":order:" + cs.callee,
+                if cs.local and cs is not rs and cs.callee not in (ch, S.gc_fn, ep.host) and any(p[:2] == ("arg1", "terminal") for p in cs.W):
+                    ctx.check(not vb.path_exists(rs.point, cs.point), "M4", api + ":order:" + cs.callee,
                               "%s mutates the terminal (%s) after the changes were collected" % (api, cs.callee), loc=w.site_loc(cs))
             for (pt, cdef, upvals) in E.closure_creations[api]:
-                ctx.check(vb.point_dominates(pt, sites[0].point), "M4", api + ":order:" + cdef,
+                ctx.check(not vb.path_exists(rs.point, pt), "M4", api + ":order:" + cdef,
                           "%s runs its per-character closure after the changes were collected" % api, loc=w.stmt_loc(api, pt))
     ctx.floor("M4", 8, "report-and-clear obligations")
